@@ -16,8 +16,8 @@ def scope(field, exp, got, info):
 
 SPEC = dict(
     sig="snap", scope=scope,
-    sc=dict(family="snap", n=(16, 150), mc=dict(max_calls=7, max_polls=1, after_end=1, max_snaps=2, max_restores=1),
-            mc_thorough=dict(max_calls=8, max_restores=2),
+    sc=dict(family="snap", n=(16, 70), mc=dict(max_calls=7, max_polls=1, after_end=1, max_snaps=2, max_restores=1),
+            mc_thorough=dict(max_calls=7, max_restores=1),
             invariants=INV, properties=PROPS, bugs=[("restoreKeepsWaiting", [], ["RestoreResumes"])]),
     cs=[dict(family="snap", n=(80, 400), paths=(3, 5), calls=45, mode="snap",
              label="YarnTrace: Next / Snapshot / RestoreAt interleaved over three runners of one script")],
